@@ -257,7 +257,7 @@ pub fn skip_all_exts() {
 }
 
 crate::harnesses! {
-    c02_fmt_len_error_small = fmt_len_error::<true>; unwind 8,
+    c02_fmt_len_error_small = fmt_len_error::<true>; unwind 20,
     c02_fmt_len_error = fmt_len_error::<false>; unwind 24,
     c02_fmt_content_ip_version = fmt_content_errors::<0>; unwind 8,
     c02_fmt_content_ip_ihl = fmt_content_errors::<1>; unwind 8,
@@ -284,8 +284,8 @@ crate::harnesses! {
     c02_fmt_linux_nonstandard = fmt_numbers::<4>; unwind 8,
     c02_fmt_eth2_slice = fmt_link_slices::<0>; unwind 8,
     c02_fmt_vlan_slice = fmt_link_slices::<1>; unwind 8,
-    c02_fmt_sll_slice = fmt_link_slices::<2>; unwind 8,
-    c02_fmt_udp = fmt_transport_small::<0>; unwind 8,
+    c02_fmt_sll_slice = fmt_link_slices::<2>; unwind 20,
+    c02_fmt_udp = fmt_transport_small::<0>; unwind 12,
     c02_fmt_icmpv4 = fmt_transport_small::<1>; unwind 8,
     c02_fmt_icmpv6 = fmt_transport_small::<2>; unwind 8,
     c02_ext_iter_step = ext_iter_step; unwind 5,
